@@ -52,6 +52,22 @@ class TermEncoder:
         self.names = LookupEncoder(lookup_size=lookup_preset.max_names)
         self.prefixes = LookupEncoder(lookup_size=lookup_preset.max_prefixes)
         self.datatypes = LookupEncoder(lookup_size=lookup_preset.max_datatypes)
+        # lookup keys the row being encoded depends on (they must all stay resident)
+        self._row_keys: dict[int, set[str]] = {}
+
+    def start_row(self) -> None:
+        """Mark the start of a new row (statement, graph start, namespace)."""
+        self._row_keys.clear()
+
+    def _claim(self, lookup: LookupEncoder, key: str) -> None:
+        keys = self._row_keys.setdefault(id(lookup), set())
+        keys.add(key)
+        if len(keys) > lookup.lookup.max_size:
+            msg = (
+                f"lookup of size {lookup.lookup.max_size} cannot hold the "
+                f"{len(keys)} entries needed by a single statement"
+            )
+            raise JellyConformanceError(msg)
 
     def encode_iri_indices(self, iri_string: str) -> tuple[Rows, int, int]:
         """
@@ -67,9 +83,14 @@ class TermEncoder:
         """
         prefix, name = split_iri(iri_string)
         if self.prefixes.lookup.max_size:
-            prefix_entry_index = self.prefixes.encode_entry_index(prefix)
+            self._claim(self.prefixes, prefix)
         else:
             name = iri_string
+        self._claim(self.names, name)
+
+        if self.prefixes.lookup.max_size:
+            prefix_entry_index = self.prefixes.encode_entry_index(prefix)
+        else:
             prefix_entry_index = None
 
         name_entry_index = self.names.encode_entry_index(name)
@@ -152,6 +173,7 @@ class TermEncoder:
                     "(its size was set to 0)"
                 )
                 raise JellyConformanceError(msg)
+            self._claim(self.datatypes, datatype)
             datatype_entry_id = self.datatypes.encode_entry_index(datatype)
 
             if datatype_entry_id is not None:
@@ -267,6 +289,7 @@ def encode_spo(
 
     """
     rows: list[jelly.RdfStreamRow] = []
+    term_encoder.start_row()
     s = next(terms)
     if repeated_terms[Slot.subject] != s:
         extra_rows = term_encoder.encode_spo(s, Slot.subject, statement)
@@ -358,6 +381,7 @@ def encode_namespace_declaration(
 
     """
     iri = jelly.RdfIri()
+    term_encoder.start_row()
     [*rows] = term_encoder.encode_iri(value, iri=iri)
     declaration = jelly.RdfNamespaceDeclaration(name=name, value=iri)
     row = jelly.RdfStreamRow(namespace=declaration)
